@@ -401,6 +401,27 @@ def _vec(r, D, lo=-3, hi=3):
     return tuple(round(r.uniform(lo, hi), 2) for _ in range(D))
 
 
+class Entangled:
+    """Returned by a recipe that hands a library call an array/tensor of the client's, modifies that input afterwards
+    (as a client may) and finds that the object the call had returned changed with it."""
+
+    def __init__(self, what: str):
+        self.what = what
+
+
+def _numpy_roundtrip(o, r):
+    """``type(o).from_numpy(o.numpy())``: the array is the client's; overwriting it afterwards must not move the new object."""
+    a = o.numpy()
+    new = type(o).from_numpy(a)
+    want = fingerprint(new)
+    a[...] = a * 0.5 + 7.0
+    got = fingerprint(new)
+    d = diff({k: (v[0], v[1], None) for k, v in want.items()}, {k: (v[0], v[1], None) for k, v in got.items()})
+    if d is not None:
+        return Entangled(f"{type(o).__name__}.from_numpy() result follows the caller's array ({d['path']})")
+    return new
+
+
 class TrackedRandom(random.Random):
     """PRNG of one accessor call that also records the tensor arguments the recipe created (tensor, pristine clone)."""
 
@@ -490,6 +511,7 @@ ACC: Dict[str, Dict[str, Callable]] = {
         "pool": lambda o, r: o.pool(r.choice([1, 2, 3]), padding=r.choice([0, 0, 1]), dilation=r.choice([1, 1, 2]), ceil_mode=r.choice([False, True])),
         "clone": lambda o, r: o.clone(),
         "cube": lambda o, r: o.cube(),
+        "numpy:roundtrip": _numpy_roundtrip,
         "coords": lambda o, r: o.coords(),
         "coords:flip": lambda o, r: o.coords(flip=True),
         "coords:dim": lambda o, r: o.coords(dim=r.choice([0, o.ndim - 1])),
@@ -509,6 +531,7 @@ ACC: Dict[str, Dict[str, Callable]] = {
         "origin": lambda o, r: o.origin(_vec_arg(r, o, r.choice(["origin", "center"]))),
         "extent": lambda o, r: o.extent(_arr(r, [r.choice([4.0, 6.5]) for _ in range(o.ndim)], "extent") if r.random() < 0.8 else o.extent()),
         "extent:scalar": lambda o, r: o.extent(r.choice([4.0, 6.5])),
+        "numpy:roundtrip": _numpy_roundtrip,
         "grid:spacing": lambda o, r: o.grid(spacing=r.choice([0.5, 1.0, tuple([1.0, 0.5, 2.0][: o.ndim])]), align_corners=r.choice([True, False])),
         "grid:size": lambda o, r: o.grid(size=tuple(r.choice([4, 5, 6]) for _ in range(o.ndim))),
         "direction": lambda o, r: o.direction(r.choice([lambda: _rotm(r, o.ndim), lambda: r.tensor("direction", _rotm(r, o.ndim)), lambda: o.direction()])()),
@@ -1077,6 +1100,9 @@ class FrameWorld:
                 viol.append(Violation("C15", "argument-mutated", f"argument-mutated/acc:{op['name']}/{tag}/{nm}", {"arg": nm, "at": status}))
                 break
         self.api_note(f"{tag}.{op['name']}", "called" if status == "ok" else status)
+        if status == "ok" and isinstance(result, Entangled):
+            viol.append(Violation("C15", "result-follows-argument", f"result-follows-argument/acc:{op['name']}/{tag}", {"what": result.what}))
+            result = None
         if status == "ok":
             self.nontrivial = True
             self._keep(op, result, "acc:" + op["name"])
